@@ -138,7 +138,8 @@ static void body(const Case &cs, Status &st, uint64_t fail_at) {
             std::vector<uint8_t> s1 = b.serialize();
             if (s1.size() != cs.ref->size() || (s1.size() && memcmp(s1.data(), cs.ref->data(), s1.size()) != 0)) note(st, "serialize() differs from the canonical encoding");
             std::string key = "~mut";
-            switch (cs.order_seed % 3) {
+            switch (cs.order_seed % 4) {
+                case 3: b.put(key, b); break;                                     // the argument is the receiver itself
                 case 0: b.put(key, BinsonValue((int64_t)77)); break;
                 case 1: { Binson inner; inner.put("k", BinsonValue(true)); b.put(key, inner); break; }
                 default: { static const uint8_t blob[3] = {1, 2, 3}; b.put(key, blob, sizeof blob); break; }
@@ -262,7 +263,8 @@ Result cppwrap_execute(const Plan &p, const ExecCtx &c) {
         tree2 = tree;
         uint64_t os = (uint64_t)p.P("order");
         Node m; m.name = Bytes{'~', 'm', 'u', 't'};
-        switch (os % 3) {
+        switch (os % 4) {
+            case 3: { Bytes nm = m.name; m = tree; m.name = nm; break; }           // a copy of the object as it was before the put
             case 0: m.t = V_INT; m.i = 77; break;
             case 1: { m.t = V_OBJ; Node k; k.t = V_BOOL; k.b = true; k.name = Bytes{'k'}; m.kids.push_back(k); break; }
             default: m.t = V_BYTES; m.s = Bytes{1, 2, 3}; break;
@@ -273,6 +275,7 @@ Result cppwrap_execute(const Plan &p, const ExecCtx &c) {
         tree2.kids.push_back(m);
         std::sort(tree2.kids.begin(), tree2.kids.end(), [](const Node &a, const Node &b) { return a.name < b.name; });
         encode(tree2, ref2);
+        if (need_depth(tree2, false) > 10) { r.invalid_plan = true; r.detail = "changed object exceeds the wrapper's depth limit"; return r; }
     }
     Case cs{op, ovl, have_tree ? &tree : nullptr, have_tree ? &ref : nullptr, &p.doc, verify_ok, (uint64_t)p.P("order"), 10, (int)p.P("pre"), &tree2, &ref2};
     // ---- fault-free configuration
@@ -303,7 +306,8 @@ Result cppwrap_execute(const Plan &p, const ExecCtx &c) {
         int64_t only = p.P("only_k");
         if (only > 0) ks.push_back((uint64_t)only);
         else if (A <= 300) for (uint64_t k = 1; k <= A; k++) ks.push_back(k);
-        else { Rng rk(p.seed ^ 0xF9); std::set<uint64_t> s; for (uint64_t k = 1; k <= 100; k++) s.insert(k); for (uint64_t k = A - 50; k <= A; k++) s.insert(k); for (int i = 0; i < 150; i++) s.insert(1 + rk.below(A)); ks.assign(s.begin(), s.end()); }
+        else if (A <= 3000) { Rng rk(p.seed ^ 0xF9); std::set<uint64_t> s; for (uint64_t k = 1; k <= 100; k++) s.insert(k); for (uint64_t k = A - 50; k <= A; k++) s.insert(k); for (int i = 0; i < 150; i++) s.insert(1 + rk.below(A)); ks.assign(s.begin(), s.end()); }
+        else { Rng rk(p.seed ^ 0xF9); std::set<uint64_t> s; for (uint64_t k = 1; k <= 6; k++) s.insert(k); for (uint64_t k = A - 4; k <= A; k++) s.insert(k); for (int i = 0; i < 20; i++) s.insert(1 + rk.below(A)); ks.assign(s.begin(), s.end()); }     // very large operations: every run must stay far below the watchdog
         for (uint64_t k : ks) {
             if (sink.failed()) break;
             long l0 = g_live.load();
